@@ -36,7 +36,7 @@ TIERS = {
     "quick": {"examples": 12000, "machine_runs": 960, "machine_steps": 25, "budget_s": 110},
     "thorough": {"examples": 100000, "machine_runs": 5000, "machine_steps": 50, "budget_s": 1800},
 }
-PARTS = ["search", "machine"]
+PARTS = ["corpus_part", "search", "machine"]
 
 MARK = "ZZHIDDENZZ"
 
@@ -77,8 +77,12 @@ def class_of_string(type_, key, s, in_list=False):
     return ("Q", s)
 
 
-def expected_events(d):
-    """-> list of expected reader events (without line numbers) or raises Unrepresentable."""
+def expected_events(d, lenient_lookalikes=False):
+    """-> list of expected reader events (without line numbers) or raises Unrepresentable.
+    lenient_lookalikes (corpus files): a string that looks like an expression / binding / regex / list at a
+    multi-alternative keyword is outside the guarantee (section 5 rule 3) - its class is not judged."""
+    from .. import strings as _strings
+
     out = []
     for e in dictevents.dict_events(d):
         if e[0] == "attr":
@@ -92,6 +96,10 @@ def expected_events(d):
                     toks.append(("N", x))
                 elif isinstance(x, str):
                     c = class_of_string(typ, k, x, in_list=isinstance(v, (list, tuple)))
+                    if lenient_lookalikes and c is not None and c[0] == "Q":
+                        sl = slot_of(typ, k)
+                        if sl is not None and sl.is_multi and _strings.is_lookalike(x):
+                            c = None
                     toks.append(c if c is not None else ("?", x))
                 else:
                     raise Unrepresentable(f"{typ}.{k} = {x!r}")
@@ -181,9 +189,9 @@ def print_via(d, o, how):
             os.unlink(p)
 
 
-def check_print(d, o, case, how="dumps"):
+def check_print(d, o, case, how="dumps", lenient_lookalikes=False):
     try:
-        exp = expected_events(d)
+        exp = expected_events(d, lenient_lookalikes)
     except Unrepresentable as e:
         return [Discrepancy("harness:unrepresentable", f"harness built an unrepresentable value: {e}", case)]
     try:
@@ -215,6 +223,31 @@ def draw_print_options(ch, d):
         return None
     return dict(indent=ch.choice([0, 1, 2, 4, 8]), spacer=ch.choice([" ", "\t"]), quote=ch.choice(qs),
                 newlinechar=ch.choice(["\n", "\r\n"]), end_comment=ch.bool(), align_values=ch.bool())
+
+
+def corpus_part(acc: Acc, tier, shard, nshards):
+    """every parseable corpus file under a few drawn print option sets"""
+    from .. import corpus
+    from ..harness import hyp_each
+
+    items = list(corpus.load_all(shard, nshards, acc))
+
+    def make_body(item):
+        p, text, d = item
+
+        def body(data):
+            ch = model.Ch(data.draw)
+            o = draw_print_options(ch, d)
+            if o is None:
+                acc.excl("corpus:both_quotes_in_strings")
+                return []
+            acc.case([corpus.rel(p), sorted(o.items())], True, sample={"file": corpus.rel(p), "options": o})
+            acc.cls("corpus_cases")
+            return check_print(d, o, {"file": corpus.rel(p), "options": o}, lenient_lookalikes=True)
+
+        return body
+
+    hyp_each(acc, ID, "corpus", shard, items, 2 if tier == "quick" else 12, make_body, tier, key=lambda it: corpus.rel(it[0]))
 
 
 def search(acc: Acc, tier, shard, nshards):
@@ -502,6 +535,11 @@ def machine(acc: Acc, tier, shard, nshards):
 
 def replay(case):
     W = env.Workers.get()
+    if "file" in case:
+        from .. import corpus
+
+        d = W.loads(corpus.read(os.path.join(env.REPO, case["file"])))
+        return check_print(d, case["options"], case, lenient_lookalikes=True)
     if "doc" in case:
         doc = case["doc"]
         if case.get("source") == "dict_api":
